@@ -43,6 +43,23 @@ def _targets_blob(loc):
         return True
     return True
 
+def _exact_total(run, r):
+    """N if the success path r establishes len(blob) == N: a zerocopy view of the WHOLE blob as a fixed-size struct
+    (`T::mut_from_bytes` / `ref_from_bytes`), or a comparison `len(blob) == N` taken on its equal edge."""
+    for e in r.path.events:
+        if e["kind"] == "split" and e.get("how") == "zexact" and isinstance(e.get("n"), int):
+            tg = e.get("target")
+            whole = (run.norm.loc_in(tg) == ("in", BUF)
+                     or (isinstance(tg, tuple) and tg[0] == "T" and tg[1] in (("bytes_of", ("param", 2, BUF)), ("bytes_of", ("param", 3, BUF)), ("param", 2, BUF)))
+                     or (isinstance(tg, tuple) and tg[0] == "P" and tg[-1] == BUF))
+            if whole:
+                return e["n"]
+    for g in r.path.guards:
+        pin = pin_of(run.norm.n(g["cond"]), g["value"], g.get("arms"))
+        if pin and pin[0] == ("len", ("in", BUF)) and pin[2]:
+            return pin[1]
+    return None
+
 def check(ctx, be, op):
     w = ctx.world
     key = f"{op}/{be}"
@@ -91,6 +108,16 @@ def check(ctx, be, op):
     tsl, twhole = payload_slices(tag, BUF)
     # R06.1 partition
     p1 = []
+    # when the success path pins the total length (a whole-buffer zerocopy view of a fixed-size struct, or `len == N` on its
+    # equal edge) end-relative bounds and absolute ones name the same positions: express everything from the start
+    total = _exact_total(run, r)
+    def absb(b):
+        return (b[0] + total, 0) if (total is not None and b[1] == 1) else b
+    if total is not None:
+        direct = [(absb(a), absb(b)) for a, b in direct]
+        tsl = [(absb(a), absb(b)) for a, b in tsl]
+        direct = [(a, (0, 1)) if b == (total, 0) else (a, b) for a, b in direct]
+        tsl = [(a, (0, 1)) if b == (total, 0) else (a, b) for a, b in tsl]
     regs = sorted(set(direct + tsl), key=lambda b: (b[0][1], b[0][0], b[1][1], b[1][0]))
     # adjacent direct slices may be authenticated as one struct view (PBKW prefix): tiles() handles contiguity
     ok, why = tiles(regs)
@@ -103,10 +130,20 @@ def check(ctx, be, op):
         data = data[1][2][0] if data[1][0] == "call" and data[1][2] else data
     if isinstance(data, tuple) and data and data[0] == "ENC":
         data = data[2]
-    if not (isinstance(data, tuple) and data and data[0] == "sl" and data[1] == base and (data[2], data[3]) in direct and (data[2], data[3]) not in tsl):
+    dreg = None
+    if isinstance(data, tuple) and data and data[0] == "sl" and data[1] == base:
+        dreg = (absb(data[2]), absb(data[3]))
+        if total is not None and dreg[1] == (total, 0):
+            dreg = (dreg[0], (0, 1))
+    if not (dreg is not None and dreg in direct and dreg not in tsl):
         p1.append(f"returned key {fmt_n(ret)[:200]} is not the decryption of exactly one authenticated non-tag region")
     if op == "pke":
         ex = [e for e in r.path.events if e["kind"] == "exactlen" and e.get("n") == 32]
+        if not ex and total is not None and dreg is not None and dreg[0][1] == 0:
+            # total length pinned and the key region runs from a fixed offset to a fixed offset / the end: its width is fixed
+            end = total if dreg[1] == (0, 1) else (dreg[1][0] if dreg[1][1] == 0 else None)
+            if end is not None and end - dreg[0][0] == 32:
+                ex = [True]
         if not ex:
             p1.append("the encrypted-key region is not length-tested to exactly 32 bytes")
     ctx.add("R06.1", f"C06/R06.1/{key}", not p1, "; ".join(p1), site)
